@@ -623,8 +623,12 @@ package skiplist
 //@ at-call (*skiplist.Node).dcasNext assert[g-mark] arg0 == delNode && !arg4 && arg5 && arg3 == arg2
 
 //@ func (*Skiplist).Insert4 @step
-//@ props C13 C14
+//@ props C13
 //@ mode step
+//@ loop 1 cut
+//@ loop 2 cut
+//@ loop 3 cut
+//@ loop 4 cut
 //@ requires s != nil && x != nil && buf != nil && sts != nil && x.mine && x.cur == 0 && 0 <= itemLevel && itemLevel <= 32 && len(buf.preds) == 33 && len(buf.succs) == 33
 //@ requires[buf-private] ptr(buf.preds) + 8 * 33 <= brk() && ptr(buf.succs) + 8 * 33 <= brk()
 //@ requires[fresh-node] forall l int {x.del[l]} :: !x.del[l]
